@@ -212,6 +212,8 @@ def machine_variants(name, mesh, tier):
              if (x, y, l) not in set(base)]
     chips = [(x, y) for x in range(w) for y in range(h)]
     maxl = scope(tier)["max_dead_links"]
+    if w * h > 6:
+        maxl = 1        # 3x3: pairs of dead links are left to C03
     for dc in [None] + chips:
         if dc and len(chips) < 3:
             continue
@@ -223,6 +225,10 @@ def machine_variants(name, mesh, tier):
                 # one dead directed link; also the same link dead in both
                 # directions
                 yield (w, h, [dc] if dc else [], base + list(dl))
+
+
+def base_links(w, h, mesh):
+    return sorted(wrap_links(w, h)) if mesh else []
 
 
 def feasible_placements(verts, chips, pinned):
@@ -390,6 +396,11 @@ def part_A(params, tier, acc):
                 if tier == "quick":
                     cfgs = [cfgs[(pi + mi) % len(cfgs)],
                             cfgs[(pi + mi + 3) % len(cfgs)]]
+                elif len(dls) > len(base_links(w, h, params["mesh"])) or dcs:
+                    # thorough: all 45 configurations on fault-free machines,
+                    # nine (rotating) per placement on faulty ones
+                    cfgs = [cfgs[(pi * 9 + mi + j * 5) % len(cfgs)]
+                            for j in range(9)]
                 for cfg in cfgs:
                     case = dict(w=w, h=h, dead_chips=[list(c) for c in dcs],
                                 dead_links=[list(l) for l in dls],
@@ -404,7 +415,8 @@ def part_A(params, tier, acc):
                     def run(ch, case=case, cfg=cfg, pl=pl):
                         c2 = dict(case, choices=list(ch.choices))
                         run_pipeline(case, acc, m, graph, pl, cfg, tier, ch)
-                    explore(run, bound=bound, budget=400)
+                    explore(run, bound=bound if w * h <= 4 else 0,
+                            budget=400)
         if mi % 25 == 0:
             acc.sample(dict(part="A", machine=[w, h], dead_chips=dcs,
                             dead_links=dls[-2:], graph=gi))
